@@ -310,6 +310,7 @@ Definition init (cf : config) (log0 : list entry) : gstate :=
 Definition init_ok (cf : config) (log0 : list entry) : Prop :=
   Forall (fun e => eterm e = boot_term) log0 /\
   voters cf <> [] /\
+  (forall j, In j (voters cf) -> ~ In j (learners cf)) /\
   ~ In 0 (voters cf) /\ ~ In 0 (learners cf).
 
 Definition reachable (cf : config) (log0 : list entry) (s : gstate) : Prop := steps (init cf log0) s.
